@@ -503,6 +503,29 @@ func init() {
 		}
 		return newError("fmt.Errorf:"+strArg(a[0]), causes...)
 	}
+	// sort.Slice / sort.SliceStable: insertion sort driven by the real less function
+	sortSlice := func(e *Exec, a []Value) Value {
+		sl, ok := a[0].(VIface).Val.(VSlice)
+		if !ok {
+			e.fail("sort.Slice on %T", a[0].(VIface).Val)
+		}
+		less := a[1].(VFunc)
+		for i := 1; i < sl.Len; i++ {
+			for j := i; j > 0; j-- {
+				r := e.callClosure(less, []Value{VInt{lenC(j)}, VInt{lenC(j - 1)}}).(VBool).T
+				if !e.decide(r) {
+					break
+				}
+				cj, ck := sl.Arr.Elems[sl.Off+j], sl.Arr.Elems[sl.Off+j-1]
+				vj, vk := load(cj), load(ck)
+				store(cj, vk)
+				store(ck, vj)
+			}
+		}
+		return nil
+	}
+	intrinsics["sort.Slice"] = sortSlice
+	intrinsics["sort.SliceStable"] = sortSlice
 	intrinsics["bytes.Equal"] = func(e *Exec, a []Value) Value {
 		x, y := e.bytesOf(a[0]), e.bytesOf(a[1])
 		if len(x) != len(y) {
